@@ -72,6 +72,7 @@ def main():
             print('EXTRACTION FAILED', str(e)[-500:]); out['extraction'] = str(e)[-500:]
             if a.json: json.dump(out, open(a.json, 'w'), indent=1)
             return 3
+        import stages as _st; _st.mark_known(ctx)
         v = [i for i in ctx.instances if i.verdict == 'violation']
         hit = [i for i in v if set(props) & i.props] if props else v
         out['violations'] = [{'key': i.key, 'props': sorted(i.props), 'msg': i.msg[:300]} for i in v]
